@@ -35,7 +35,8 @@ def gen_case(rng, widths):
     path = () if rng.random() < 0.7 or not cands else rng.choice(cands)
     return {
         "tree": t, "how": rng.choice(["parsed", "parsed", "api"]), "path": list(path),
-        "indent": rng.choice(["", " ", "  ", "\t", "   ", "    ", " \n" if rng.random() < 0.2 else "  "]), "align": rng.random() < 0.3, "width": rng.choice(widths),
+        "indent": rng.choice(["", " ", "  ", "\t", "   ", "    ", " \n" if rng.random() < 0.2 else "  ",
+                                 rng.choice(["\u00a0", "\u3000", " \u00a0", "\u2003\u2003"]) if rng.random() < 0.3 else "\t"]), "align": rng.random() < 0.3, "width": rng.choice(widths),
         "decls": None if rng.random() < 0.7 else S.gen_decls(rng, S.tree_namespaces(t)),
     }
 
@@ -87,8 +88,12 @@ def has_empty_text(t):
 
 
 def known_region(case):
-    """open finding `newline-in-indentation`: line breaks inside the indentation string, with a line width"""
-    return case["width"] >= 1 and any(c in case["indent"] for c in "\n\r")
+    """open findings: line breaks inside the indentation string with a line width (`newline-in-indentation`);
+    non-XML whitespace as indentation with attribute alignment (`non-xml-whitespace-indentation-in-tags`)"""
+    if case["width"] >= 1 and any(c in case["indent"] for c in "\n\r"):
+        return True
+    # open finding `non-xml-whitespace-indentation-in-tags`
+    return bool(case["align"]) and any(c not in " \t\n\r" for c in case["indent"])
 
 
 def judge(run: Run, stream, case, before, res, model):
